@@ -281,7 +281,9 @@ func check(c Case) engine.Outcome {
 				return o
 			}
 		}
-		sc := &stub.Scripted{Label: "scripted", Word: word}
+		// a strategy that is not repeatable (its second Compute would say something else): the
+		// outcomes must be the simulation of the actions that are returned, whatever the strategy
+		sc := &stub.Scripted{Label: "scripted", Word: word, OneShot: true}
 		cw := pipe.Run([][]*asset.Snapshot{sn}, pipe.Opts{}, func(cs []<-chan *asset.Snapshot) []<-chan float64 {
 			a, oc := strategy.ComputeWithOutcome(sc, cs[0])
 			return []<-chan float64{helper.Map(a, func(x strategy.Action) float64 { return float64(x) }), oc}
